@@ -10,6 +10,8 @@ Syntax = the simple statements of `Malt.Sem` (assign, expression statement, pass
 * `ifF c body orelse declared nouts`         `ag__.if_stmt(c, if_body, else_body, get_state, set_state, names, nouts)`
 * `whileF test body declared`                `ag__.while_stmt(loop_test, loop_body, get_state, set_state, names, opts)`
 * `forF x it extra body declared`            `ag__.for_stmt(it, extra_test, loop_body, get_state, set_state, names, opts)`
+* `withT tag body`, `tryT body handlers fin`  `with` / `try … except E<tag> … finally`: NOT functionalised (the pass leaves
+  them in place); their blocks may contain the forms above and run in the SAME frame; semantics as `Sem.withS`/`Sem.tryS`
 
 where `declared` is the list of simple names that the generated functions (`if_body`, `else_body`, `loop_body`,
 `extra_test`, `set_state`) declare `nonlocal` = the names returned by `get_state()` = `symbol_names`, in that
@@ -86,19 +88,38 @@ inductive TStmt where
   | ifF (c : Expr) (body orelse : List TStmt) (declared : List Name) (nouts : Nat)
   | whileF (c : Expr) (body : List TStmt) (declared : List Name)
   | forF (x : Name) (it : Expr) (extra : Option Expr) (body : List TStmt) (declared : List Name)
+  /-- `with cm(tag):` — NOT functionalised by the control-flow pass (pass-through); its block may contain
+  functionalised statements and runs in the same frame. -/
+  | withT (tag : Int) (body : List TStmt)
+  /-- `try / except E<tag> … / finally` — pass-through; body, handlers and finally block run in the same frame. -/
+  | tryT (body : List TStmt) (handlers : List (Nat × List TStmt)) (fin : List TStmt)
   deriving Repr, Inhabited
 
 abbrev TBlock := List TStmt
 
-/-- Names assigned directly by a statement of a function's own code (not inside nested generated functions). -/
+def TSt.push (σ : TSt) (e : Event) : TSt := { σ with log := σ.log ++ [e] }
+
+/-- Does `except E<tag>` among the handlers catch this exception? (first match; as `Sem.findHandler`) -/
+def findHandlerT (hs : List (Nat × TBlock)) : Exc → Option TBlock
+  | .user t => (hs.find? (fun h => h.1 == t)).map (·.2)
+  | _ => none
+
+mutual
+/-- Names assigned directly by a statement of a function's own code (not inside nested generated functions).
+The blocks of `with` / `try` are part of the function's own code. -/
 def directS : TStmt → List Name
   | .assign x _ => [x]
   | .undefAssign x => [x]
+  | .withT _ b => direct b
+  | .tryT b hs f => direct b ++ (directH hs ++ direct f)
   | _ => []
-
-def direct : TBlock → List Name
+def direct : List TStmt → List Name
   | [] => []
   | s :: rest => directS s ++ direct rest
+def directH : List (Nat × List TStmt) → List Name
+  | [] => []
+  | (_, b) :: rest => direct b ++ directH rest
+end
 
 /-- Local variables of a generated body function. -/
 def localsOf (body : TBlock) (declared : List Name) : List Name :=
@@ -167,6 +188,26 @@ def execN (X : Ext) : Nat → TStmt → TSt → Option (Out × TSt)
                     | (.error ex, σ'') => some (.exc ex, σ'')))
             | .error ex => some (.exc ex, σ'))
         | (.error ex, σ') => some (.exc ex, σ'))
+    | .withT tag body =>                                          -- as `Sem.exec` on `withS`
+        (match execNB X n body (σ.push (.enter tag)) with
+         | none => none
+         | some (o, σ') => some (o, σ'.push (.exit tag)))
+    | .tryT body hs fin =>                                        -- as `Sem.exec` on `tryS`
+        (match execNB X n body σ with
+         | none => none
+         | some (o, σ') =>
+           let afterH : Option (Out × TSt) := match o with
+             | .exc ex => (match findHandlerT hs ex with
+                 | some hb => execNB X n hb σ'
+                 | none => some (o, σ'))
+             | _ => some (o, σ')
+           match afterH with
+           | none => none
+           | some (o', σ'') =>
+             (match execNB X n fin σ'' with
+              | none => none
+              | some (.normal, σ₃) => some (o', σ₃)
+              | some r => some r))
 def execNB (X : Ext) : Nat → TBlock → TSt → Option (Out × TSt)
   | 0, _, _ => none
   | _+1, [], σ => some (.normal, σ)
@@ -242,10 +283,15 @@ def riskS (L B : List Name) : TStmt → Bool
       riskB (localsOf b decl) [] b || riskB (localsOf e decl) [] e
   | .whileF _ b decl => decl.any (fun x => L.contains x && !B.contains x) || riskB (localsOf b decl) [] b
   | .forF x _ _ b decl => decl.any (fun y => L.contains y && !B.contains y) || riskB (localsFor x b decl) [x] b
+  | .withT _ b => riskB L B b
+  | .tryT b hs f => riskB L B b || riskH L B hs || riskB L B f
   | _ => false
-def riskB (L B : List Name) : TBlock → Bool
+def riskB (L B : List Name) : List TStmt → Bool
   | [] => false
   | s :: r => riskS L B s || riskB L (B ++ directS s) r
+def riskH (L B : List Name) : List (Nat × List TStmt) → Bool
+  | [] => false
+  | (_, b) :: r => riskB L B b || riskH L B r
 end
 
 /-- The class predicate on a whole generated function body (the function's own frame is not at risk: every
@@ -320,6 +366,26 @@ def execF (X : Ext) : Nat → TStmt → TSt → Option (Out × TSt)
                          | (.ok tv, σ'') => if truthy tv then execFFor X n x (some t) body decl items s0 σ'' else some (.normal, σ'')
                          | (.error ex, σ'') => some (.exc ex, σ'')))
                   | some r => some r))))
+    | .withT tag body =>
+        (match execFB X n body (σ.push (.enter tag)) with
+         | none => none
+         | some (o, σ') => some (o, σ'.push (.exit tag)))
+    | .tryT body hs fin =>
+        (match execFB X n body σ with
+         | none => none
+         | some (o, σ') =>
+           let afterH : Option (Out × TSt) := match o with
+             | .exc ex => (match findHandlerT hs ex with
+                 | some hb => execFB X n hb σ'
+                 | none => some (o, σ'))
+             | _ => some (o, σ')
+           match afterH with
+           | none => none
+           | some (o', σ'') =>
+             (match execFB X n fin σ'' with
+              | none => none
+              | some (.normal, σ₃) => some (o', σ₃)
+              | some r => some r))
 def execFB (X : Ext) : Nat → TBlock → TSt → Option (Out × TSt)
   | 0, _, _ => none
   | _+1, [], σ => some (.normal, σ)
